@@ -210,6 +210,38 @@ def poly_value(coeffs, x):
     return sum([c.coefficient * rpow(toreal(x), c.exponent) for c in coeffs])
 
 
+# ---- container inheritance (C05) ------------------------------------------------------------------------------------------
+
+@uninterpreted('rec', 'packet', 'bool')
+def rc_match(container, packet):
+    """all restriction criteria of a container hold for the values decoded so far (an empty list holds vacuously)"""
+    return all(sem_crit(c, packet, None) for c in container.restriction_criteria)
+
+
+@axiom
+def rc_match_def(container, packet):
+    return rc_match(container, packet) == forall(lambda j: sem_crit(at(container.restriction_criteria, j), packet, None),
+                                                 0, len(container.restriction_criteria))
+
+
+@uninterpreted('rec', 'smap', 'packet', 'int', 'int')
+def nvalid(container, containers, packet, i):
+    """how many of the first i inheritors of `container` have all their restriction criteria satisfied"""
+    return sum(1 for name in container.inheritors[:i] if rc_match(containers[name], packet))
+
+
+@axiom
+def nvalid_zero(container, containers, packet):
+    return nvalid(container, containers, packet, 0) == 0
+
+
+@axiom
+def nvalid_step(container, containers, packet, i):
+    return implies(0 <= i and i < len(container.inheritors),
+                   nvalid(container, containers, packet, i + 1) == nvalid(container, containers, packet, i) +
+                   (1 if rc_match(containers[at(container.inheritors, i)], packet) else 0))
+
+
 # ---- computed field lengths (C07) -----------------------------------------------------------------------------------------
 
 def trunc(x):
